@@ -13,7 +13,7 @@ RowShaOK(w, j) == \A i \in NewIdx(w) :
 Verdict(tr) ==
     LET w == tr.wire
         rs == [i \in DOMAIN tr.results |-> tr.results[i].exc]
-        fl == F("S1", S1w(w, tr.first)) \o F("S2", S2w(w))
+        fl == F("S1", S1w(w, tr.first)) \o F("S2", S2w(w)) \o F("S6", S6w(w))
            \o F("S3", Len(tr.results) = tr.expected_tasks /\ \A i \in DOMAIN rs : rs[i] \in {"none", "FIXConnectionError"})
            \o F("S4", RowShaOK(w, tr.jout))
            \o F("S5", S5c(w, tr.first, tr.sout) /\ tr.nout = tr.sout)
